@@ -163,14 +163,16 @@ func c11SecretMap(secret int) (map[string]string, map[string][]byte) {
 }
 
 func c11SpaceConn(c *fw.Ctx) {
-	c.Space("conn", "real dns.Conn with TsigSecret {k1,k3: secret A; k2: secret B} over a scripted in-memory conn × {stream, datagram} × 5 algorithms × key {k1,k2} × 2 secret assignments: WriteMsg(signed query) — written octets = reference; replies signed by the reference model over the query's MAC are read with ReadMsg: the right one must verify, replies signed without / over another request MAC, with another key's secret, under a key name that is not in the map, in timers-only mode, every single-bit flip and every truncation of the right reply must not come back as err == nil ∧ IsTsig() != nil unless the reference accepts; then a second query on the same Conn (state carried in tsigRequestMAC) and its reply; non-trivial: every case", true,
+	c.Space("conn", "real dns.Conn with TsigSecret {k1,k3: secret A; k2: secret B} — and the same keys through Conn.TsigProvider beside a TsigSecret map of other secrets — over a scripted in-memory conn × {stream, datagram} × 5 algorithms × key {k1,k2} × 2 secret assignments: WriteMsg(signed query) — written octets = reference; replies signed by the reference model over the query's MAC are read with ReadMsg: the right one must verify, replies signed without / over another request MAC, with another key's secret, under a key name that is not in the map, in timers-only mode, every single-bit flip and every truncation of the right reply must not come back as err == nil ∧ IsTsig() != nil unless the reference accepts; then a second query on the same Conn (state carried in tsigRequestMAC) and its reply; non-trivial: every case", true,
 		func(emit func(func(*fw.R))) {
 			for _, alg := range c11Algs {
 				for _, udp := range []bool{false, true} {
 					for _, key := range []string{c11K1, c11K2} {
 						for secret := 0; secret < 2; secret++ {
-							alg, udp, key, secret := alg, udp, key, secret
-							emit(func(r *fw.R) { c11Conn(r, alg, udp, key, secret) })
+							for _, prov := range []bool{false, true} {
+								alg, udp, key, secret, prov := alg, udp, key, secret, prov
+								emit(func(r *fw.R) { c11Conn(r, alg, udp, key, secret, prov) })
+							}
 						}
 					}
 				}
@@ -178,7 +180,7 @@ func c11SpaceConn(c *fw.Ctx) {
 		})
 }
 
-func c11Conn(r *fw.R, alg string, udp bool, key string, secret int) {
+func c11Conn(r *fw.R, alg string, udp bool, key string, secret int, prov bool) {
 	r.Nontrivial()
 	b64, raw := c11SecretMap(secret)
 	lookup := func(name [][]byte) ([]byte, bool) {
@@ -189,7 +191,11 @@ func c11Conn(r *fw.R, alg string, udp bool, key string, secret int) {
 	}
 	w := c11NewWire(udp)
 	co := &dns.Conn{Conn: w.conn(), TsigSecret: b64}
-	ctx := fmt.Sprintf("conn{alg=%s datagram=%v key=%s TsigSecret=%v}", alg, udp, key, b64)
+	if prov {
+		// the same keys through Conn.TsigProvider; the TsigSecret map then holds other secrets and must not be consulted
+		co.TsigProvider, co.TsigSecret = &c11Provider{keys: raw}, c11DecoySecrets(b64)
+	}
+	ctx := fmt.Sprintf("conn{alg=%s datagram=%v key=%s TsigSecret=%v via TsigProvider=%v}", alg, udp, key, b64, prov)
 
 	for round := 1; round <= 2; round++ {
 		T := uint64(time.Now().Unix())
@@ -312,7 +318,7 @@ func c11Conn(r *fw.R, alg string, udp bool, key string, secret int) {
 // dns.Transfer.In (AXFR) over the scripted stream: tsigRequestMAC and tsigTimersOnly as kept by xfr.go
 
 func c11SpaceXfr(c *fw.Ctx) {
-	c.Space("xfr", "real dns.Transfer.In (AXFR, TsigSecret map) over a scripted stream: the peer (reference model) answers the signed query with a chain of n = 1..4 envelopes (first over the query MAC with full variables, following over the previous MAC with timers only) × 5 algorithms × 2 secrets × position i < n × fault {none, one bit of an address flipped, one bit of the MAC flipped, removed, duplicated, swapped with i+1, TSIG stripped, signed in the wrong mode, signed over the query MAC again}: the envelopes delivered without error are exactly the prefix the reference accepts, and the transfer ends with an error iff the reference rejects an envelope or the stream ends before the closing SOA; non-trivial: every case", true,
+	c.Space("xfr", "real dns.Transfer.In (AXFR, keys in the TsigSecret map or — every other case — behind Transfer.TsigProvider with a TsigSecret map of other secrets) over a scripted stream: the peer (reference model) answers the signed query with a chain of n = 1..4 envelopes (first over the query MAC with full variables, following over the previous MAC with timers only) × 5 algorithms × 2 secrets × position i < n × fault {none, one bit of an address flipped, one bit of the MAC flipped, removed, duplicated, swapped with i+1, TSIG stripped, signed in the wrong mode, signed over the query MAC again}: the envelopes delivered without error are exactly the prefix the reference accepts, and the transfer ends with an error iff the reference rejects an envelope or the stream ends before the closing SOA; non-trivial: every case", true,
 		func(emit func(func(*fw.R))) {
 			for _, alg := range c11Algs {
 				for secret := 0; secret < 2; secret++ {
@@ -320,7 +326,8 @@ func c11SpaceXfr(c *fw.Ctx) {
 						for pos := 0; pos < n; pos++ {
 							for fault := 0; fault < c11NXfrFaults; fault++ {
 								alg, secret, n, pos, fault := alg, secret, n, pos, fault
-								emit(func(r *fw.R) { c11Xfr(r, alg, secret, n, pos, fault) })
+								prov := (n+pos+fault+secret)%2 == 1 // half of the cases configure the keys through Transfer.TsigProvider
+								emit(func(r *fw.R) { c11Xfr(r, alg, secret, n, pos, fault, prov) })
 							}
 						}
 					}
@@ -333,14 +340,14 @@ const c11NXfrFaults = 9
 
 var c11XfrFaultNames = []string{"none", "address bit flipped", "MAC bit flipped", "removed", "duplicated", "swapped with next", "TSIG stripped", "signed in the wrong mode", "signed over the query MAC instead of the previous envelope's"}
 
-func c11Xfr(r *fw.R, alg string, secret, n, pos, fault int) {
+func c11Xfr(r *fw.R, alg string, secret, n, pos, fault int, prov bool) {
 	r.Nontrivial()
 	b64, raw := c11SecretMap(secret)
 	lookup := func(name [][]byte) ([]byte, bool) {
 		sec, ok := raw[rt.AlgName(name)]
 		return sec, ok
 	}
-	ctx := fmt.Sprintf("xfr{alg=%s n=%d position=%d fault=%q TsigSecret=%v}", alg, n, pos, c11XfrFaultNames[fault], b64)
+	ctx := fmt.Sprintf("xfr{alg=%s n=%d position=%d fault=%q TsigSecret=%v via TsigProvider=%v}", alg, n, pos, c11XfrFaultNames[fault], b64, prov)
 	st := &c11Stream{}
 	var list [][]byte  // envelopes as sent
 	var soaLast []bool // does the envelope end the transfer (closing SOA)?
@@ -439,6 +446,9 @@ func c11Xfr(r *fw.R, alg string, secret, n, pos, fault int) {
 	}
 
 	tr := &dns.Transfer{Conn: &dns.Conn{Conn: st}, TsigSecret: b64}
+	if prov {
+		tr.TsigProvider, tr.TsigSecret = &c11Provider{keys: raw}, c11DecoySecrets(b64)
+	}
 	q := c11Stub(c11AxfrQuery(), c11K1, alg, 300, uint64(time.Now().Unix()))
 	ch, err := tr.In(q, "sim")
 	if err != nil {
@@ -507,4 +517,13 @@ func c11Xfr(r *fw.R, alg string, secret, n, pos, fault int) {
 	r.Sample(func() any {
 		return fmt.Sprintf("%s: delivered %d, final error %v; reference %d, %q", ctx, good, failed, wantGood, wantErr)
 	})
+}
+
+// c11DecoySecrets: the same key names with other secrets — what a configured TsigProvider must shadow.
+func c11DecoySecrets(m map[string]string) map[string]string {
+	out := map[string]string{}
+	for k := range m {
+		out[k] = base64.StdEncoding.EncodeToString([]byte("decoy-secret-that-must-not-be-used"))
+	}
+	return out
 }
